@@ -142,7 +142,9 @@ impl ClassRef {
 impl InstRef {
   #[verifier::external_body] pub fn class(&self) -> (r: ClassRef) ensures r == class_of_inst(*self) { ClassRef { p: 0 } }
 }
+pub uninterp spec fn o_methodref(o: ObjectRef) -> MethodRef;
 impl ObjectRef {
+  #[verifier::external_body] pub fn to_method(&self) -> (r: MethodRef) requires o_kind(*self) == ObjectKind::Method ensures r == o_methodref(*self) { MethodRef { p: 0 } }
   #[verifier::external_body] pub fn to_class(&self) -> (r: ClassRef) requires o_kind(*self) == ObjectKind::Class ensures r == o_class(*self) { ClassRef { p: 0 } }
   #[verifier::external_body] pub fn to_instance(&self) -> (r: InstRef) requires o_kind(*self) == ObjectKind::Instance ensures r == o_inst(*self) { InstRef { p: 0 } }
 }
@@ -150,6 +152,54 @@ impl IntoValue for InstRef {
   open spec fn into_value_spec(self) -> Value { from_inst(self) }
   #[verifier::external_body] fn into_value(self) -> (r: Value) { Value { bits: 0 } }
 }
+
+// ---- classes, instances and bound methods as the handlers see them (A-heap) -------------------------------------
+/// field table of a class: name -> slot index (fixed once the class is defined)
+pub uninterp spec fn field_index(c: ClassRef, n: LyStr) -> Option<u16>;
+/// method table of a class (own and inherited, most-derived first: what Class::get_method answers)
+pub uninterp spec fn method_of(c: ClassRef, n: LyStr) -> Option<Value>;
+/// the class the runtime assigns to any value (instances: their class; primitives: the builtin class)
+pub uninterp spec fn class_of_value(v: Value) -> ClassRef;
+pub uninterp spec fn from_method(receiver: Value, method: Value) -> Value;     // a bound method object
+pub uninterp spec fn o_method_receiver(o: ObjectRef) -> Value;
+pub uninterp spec fn o_method_fn(o: ObjectRef) -> Value;
+
+#[verifier::external_body]
+#[derive(Clone, Copy)]
+pub struct MethodRef { p: usize }     // ObjRef<Method>
+pub uninterp spec fn m_receiver(m: MethodRef) -> Value;
+pub uninterp spec fn m_method(m: MethodRef) -> Value;
+impl MethodRef {
+  #[verifier::external_body] pub fn receiver(&self) -> (r: Value) ensures r == m_receiver(*self) { Value { bits: 0 } }
+  #[verifier::external_body] pub fn method(&self) -> (r: Value) ensures r == m_method(*self) { Value { bits: 0 } }
+}
+impl IntoValue for MethodRef {
+  open spec fn into_value_spec(self) -> Value { from_method(m_receiver(self), m_method(self)) }
+  #[verifier::external_body] fn into_value(self) -> (r: Value) { Value { bits: 0 } }
+}
+/// `Method::new(receiver, method)` before it is moved to the heap
+pub struct Method { pub receiver: Value, pub method: Value }
+impl Method { pub fn new(receiver: Value, method: Value) -> (r: Self) ensures r.receiver == receiver, r.method == method { Method { receiver, method } } }
+
+impl ClassRef {
+  #[verifier::external_body] pub fn get_field_index(&self, name: &LyStr) -> (r: Option<u16>) ensures r == field_index(*self, *name) { None }
+  #[verifier::external_body] pub fn get_method(&self, name: &LyStr) -> (r: Option<Value>) ensures r == method_of(*self, *name) { None }
+  #[verifier::external_body] pub fn name(&self) -> (r: LyStr) { LyStr { p: 0 } }
+}
+/// pointer identity of classes (`ObjRef<Class> == ObjRef<Class>`)
+#[verifier::external_body] pub fn verif_class_eq(a: ClassRef, b: ClassRef) -> (r: bool) ensures r == (a == b) { true }
+
+pub broadcast axiom fn axiom_instance_class(v: Value)
+  requires v_is_obj(v), o_kind(v_obj(v)) == ObjectKind::Instance,
+  ensures #[trigger] class_of_value(v) == class_of_inst(o_inst(v_obj(v))),
+;
+
+/// A-heap: the class the runtime assigns to a value that is not an instance (a primitive's builtin class, a class
+/// object's metaclass) declares no instance fields — fields are only ever added by `Field` ops of a user class body
+pub broadcast axiom fn axiom_primitive_classes_have_no_fields(v: Value, n: LyStr)
+  requires !(v_is_obj(v) && o_kind(v_obj(v)) == ObjectKind::Instance),
+  ensures #[trigger] field_index(class_of_value(v), n) is None,
+;
 
 /// an active exception handler: where its catch code starts and how deep the stack was at its try
 pub struct Handler { pub offset: int, pub depth: int }
@@ -323,28 +373,36 @@ pub struct Vm {
   pub constants: Ghost<Seq<Value>>,
   /// ghost: waiters handed to the scheduler's run queue by this handler execution, in order
   pub queued: Ghost<Seq<WaiterRef>>,
+  /// the inline cache of the current module (real type from cache.rs; A-slot: the per-module vector index is dropped)
+  pub cache: InlineCache,
+  /// ghost: instance slots, (instance, slot) -> value
+  pub heap: Ghost<Map<(InstRef, int), Value>>,
+  /// ghost: the call this handler handed to resolve_call: (callee, argument count, operand stack at that moment)
+  pub called: Ghost<Option<(Value, u8, Seq<Value>)>>,
 }
 
 pub uninterp spec fn code_u8(ip: int) -> u8;
 pub uninterp spec fn code_u16(ip: int) -> u16;
+pub uninterp spec fn code_u32(ip: int) -> u32;
+pub uninterp spec fn string_constant(index: u16) -> LyStr;
 
 impl Vm {
   #[verifier::external_body]
   pub fn read_byte(&mut self) -> (r: u8)
     ensures r == code_u8(old(self).ip@), final(self).ip@ == old(self).ip@ + 1,
-            final(self).fiber == old(self).fiber, final(self).raised == old(self).raised, final(self).constants == old(self).constants, final(self).builtin == old(self).builtin, final(self).queued == old(self).queued
+            final(self).fiber == old(self).fiber, final(self).raised == old(self).raised, final(self).constants == old(self).constants, final(self).builtin == old(self).builtin, final(self).queued == old(self).queued, final(self).cache == old(self).cache, final(self).heap == old(self).heap, final(self).called == old(self).called
   { 0 }
 
   #[verifier::external_body]
   pub fn read_short(&mut self) -> (r: u16)
     ensures r == code_u16(old(self).ip@), final(self).ip@ == old(self).ip@ + 2,
-            final(self).fiber == old(self).fiber, final(self).raised == old(self).raised, final(self).constants == old(self).constants, final(self).builtin == old(self).builtin, final(self).queued == old(self).queued
+            final(self).fiber == old(self).fiber, final(self).raised == old(self).raised, final(self).constants == old(self).constants, final(self).builtin == old(self).builtin, final(self).queued == old(self).queued, final(self).cache == old(self).cache, final(self).heap == old(self).heap, final(self).called == old(self).called
   { 0 }
 
   #[verifier::external_body]
   pub fn update_ip(&mut self, offset: isize)
     ensures final(self).ip@ == old(self).ip@ + offset,
-            final(self).fiber == old(self).fiber, final(self).raised == old(self).raised, final(self).constants == old(self).constants, final(self).builtin == old(self).builtin, final(self).queued == old(self).queued
+            final(self).fiber == old(self).fiber, final(self).raised == old(self).raised, final(self).constants == old(self).constants, final(self).builtin == old(self).builtin, final(self).queued == old(self).queued, final(self).cache == old(self).cache, final(self).heap == old(self).heap, final(self).called == old(self).called
   { }
 
   /// real: get_constant_unchecked — the index is trusted (C06 O-06.9, not decided)
@@ -360,14 +418,68 @@ impl Vm {
     ensures r == ExecutionSignal::RuntimeError, final(self).raised@ == Some(error), final(self).ip == old(self).ip,
             final(self).fiber.used == old(self).fiber.used, final(self).fiber.pool == old(self).fiber.pool,
             final(self).fiber.handlers == old(self).fiber.handlers, final(self).fiber.error_in_handler == old(self).fiber.error_in_handler,
-            final(self).constants == old(self).constants, final(self).builtin == old(self).builtin, final(self).queued == old(self).queued
+            final(self).cache == old(self).cache, final(self).heap == old(self).heap, final(self).called == old(self).called,
+            final(self).constants == old(self).constants, final(self).builtin == old(self).builtin, final(self).queued == old(self).queued, final(self).cache == old(self).cache, final(self).heap == old(self).heap, final(self).called == old(self).called
   { ExecutionSignal::RuntimeError }
+
+  /// the 4-byte inline cache slot operand
+  #[verifier::external_body]
+  pub fn read_slot(&mut self) -> (r: u32)
+    ensures r == code_u32(old(self).ip@), final(self).ip@ == old(self).ip@ + 4,
+            final(self).fiber == old(self).fiber, final(self).raised == old(self).raised, final(self).constants == old(self).constants, final(self).builtin == old(self).builtin, final(self).queued == old(self).queued, final(self).cache == old(self).cache, final(self).heap == old(self).heap, final(self).called == old(self).called
+  { 0 }
+
+  /// the string constant at `index` (real: read_constant(index).to_obj().to_str(), unchecked)
+  #[verifier::external_body]
+  pub fn read_string(&self, index: u16) -> (r: LyStr)
+    ensures r == string_constant(index)
+  { LyStr { p: 0 } }
+
+  #[verifier::external_body]
+  pub fn value_class(&self, value: Value) -> (r: ClassRef) ensures r == class_of_value(value) { ClassRef { p: 0 } }
+
+  /// R9: `instance[slot]` — an instance is a GC pointer into the heap the interpreter owns
+  #[verifier::external_body]
+  pub fn heap_get(&self, instance: InstRef, slot: usize) -> (r: Value)
+    ensures r == self.heap@[(instance, slot as int)]
+  { Value { bits: 0 } }
+
+  /// R9: `instance[slot] = value`
+  #[verifier::external_body]
+  pub fn heap_set(&mut self, instance: InstRef, slot: usize, value: Value)
+    ensures final(self).heap@ == old(self).heap@.insert((instance, slot as int), value),
+            final(self).fiber == old(self).fiber, final(self).ip == old(self).ip, final(self).raised == old(self).raised, final(self).constants == old(self).constants,
+            final(self).builtin == old(self).builtin, final(self).queued == old(self).queued, final(self).cache == old(self).cache, final(self).called == old(self).called
+  { }
+
+  /// R9: `instance.get_field(name)` = `class().get_field_index(&name).map(|i| &self[i])` (laythe_core instance/mod.rs)
+  #[verifier::external_body]
+  pub fn heap_field(&self, instance: InstRef, name: LyStr) -> (r: Option<Value>)
+    ensures r == (match field_index(class_of_inst(instance), name) { Some(k) => Some(self.heap@[(instance, k as int)]), None => None })
+  { None }
+
+  /// allocate a bound method
+  #[verifier::external_body]
+  pub fn manage_obj(&mut self, m: Method) -> (r: MethodRef)
+    ensures m_receiver(r) == m.receiver, m_method(r) == m.method,
+            final(self).fiber == old(self).fiber, final(self).ip == old(self).ip, final(self).raised == old(self).raised, final(self).constants == old(self).constants,
+            final(self).builtin == old(self).builtin, final(self).queued == old(self).queued, final(self).cache == old(self).cache, final(self).heap == old(self).heap, final(self).called == old(self).called
+  { MethodRef { p: 0 } }
+
+  /// dispatch a call on `callee` with `arg_count` arguments on the stack (its own contract: stage E / C16)
+  #[verifier::external_body]
+  pub fn resolve_call(&mut self, callee: Value, arg_count: u8) -> (r: ExecutionSignal)
+    ensures final(self).called@ == Some((callee, arg_count, old(self).fiber.stack@)),
+            final(self).cache == old(self).cache, final(self).heap == old(self).heap, final(self).raised == old(self).raised,
+            final(self).constants == old(self).constants, final(self).builtin == old(self).builtin
+  { ExecutionSignal::Ok }
 
   /// make `error` the fiber's in-flight error and start unwinding
   #[verifier::external_body]
   pub fn set_error(&mut self, error: InstRef) -> (r: ExecutionSignal)
     ensures r == ExecutionSignal::RuntimeError, final(self).fiber.error == Some(error), final(self).raised == old(self).raised, final(self).ip == old(self).ip,
-            final(self).fiber.handlers == old(self).fiber.handlers, final(self).constants == old(self).constants, final(self).builtin == old(self).builtin
+            final(self).fiber.handlers == old(self).fiber.handlers, final(self).constants == old(self).constants, final(self).builtin == old(self).builtin,
+            final(self).cache == old(self).cache, final(self).heap == old(self).heap, final(self).called == old(self).called
   { ExecutionSignal::RuntimeError }
 
   /// R9: `self.ip.offset_from(&instructions()[0])` — the byte offset of ip inside the current function
@@ -380,14 +492,14 @@ impl Vm {
   /// interning allocation of a string buffer
   #[verifier::external_body]
   pub fn manage_str(&mut self, buffer: StrBuf) -> (r: LyStr)
-    ensures r == buffer.content(), final(self).fiber == old(self).fiber, final(self).ip == old(self).ip, final(self).raised == old(self).raised,
-            final(self).constants == old(self).constants, final(self).builtin == old(self).builtin, final(self).queued == old(self).queued
+    ensures r == buffer.content(), final(self).fiber == old(self).fiber, final(self).ip == old(self).ip, final(self).raised == old(self).raised, final(self).cache == old(self).cache, final(self).heap == old(self).heap, final(self).called == old(self).called, final(self).queued == old(self).queued,
+            final(self).constants == old(self).constants, final(self).builtin == old(self).builtin, final(self).queued == old(self).queued, final(self).cache == old(self).cache, final(self).heap == old(self).heap, final(self).called == old(self).called
   { LyStr { p: 0 } }
 
   /// real: unblocks the waiter's fiber and appends it to the run queue
   #[verifier::external_body]
   pub fn queue_blocked_fiber(&mut self, waiter: WaiterRef)
-    ensures final(self).queued@ == old(self).queued@.push(waiter), final(self).fiber == old(self).fiber, final(self).ip == old(self).ip, final(self).raised == old(self).raised,
+    ensures final(self).queued@ == old(self).queued@.push(waiter), final(self).fiber == old(self).fiber, final(self).ip == old(self).ip, final(self).raised == old(self).raised, final(self).cache == old(self).cache, final(self).heap == old(self).heap, final(self).called == old(self).called,
             final(self).constants == old(self).constants, final(self).builtin == old(self).builtin
   { }
 
@@ -411,6 +523,9 @@ macro_rules! to_obj_kind {
   };
   ($o:expr, String) => {
     $o.to_str()
+  };
+  ($o:expr, Method) => {
+    $o.to_method()
   };
 }
 
